@@ -254,7 +254,8 @@ class CCodegen(Stringifier):
         body = [self.visit(o.spec, skip_imports=True, skip_argument_declarations=True, **kwargs)]
 
         # Fill the body
-        body += [self.visit(o.body, **kwargs)]
+        return_var = o.result_name.lower() if o.is_function and o.result_name is not None else None
+        body += [self.visit(o.body, return_var=return_var, **kwargs)]
 
         # if something to be returned, add 'return <var>' statement
         if o.is_function and o.result_name is not None:
@@ -318,6 +319,21 @@ class CCodegen(Stringifier):
         Format intrinsic nodes.
         """
         return self.format_line(str(o.text).lstrip())
+
+    def visit_ReturnStmt(self, o, **kwargs):  # pylint: disable=unused-argument
+        """
+        Format as
+          return [<result>];
+        """
+        return_var = kwargs.get('return_var')
+        return self.format_line(f'return {return_var};' if return_var else 'return;')
+
+    def visit_CycleStmt(self, o, **kwargs):  # pylint: disable=unused-argument
+        """
+        Format as
+          continue;
+        """
+        return self.format_line('continue;')
 
     def visit_Comment(self, o, **kwargs):  # pylint: disable=unused-argument
         """
